@@ -163,7 +163,11 @@ where
     // course means we have off-by-1 errors, so the correct way is to trim
     // leading zeros, and then calculate the exponent as the offset.
     let digits = &buffer[integer_cursor..fraction_cursor];
-    let zero_count = ltrim_char_count(digits, b'0');
+    // NOTE: A literal 0 only has the digit `0`, which is then significant.
+    let zero_count = match ltrim_char_count(digits, b'0') {
+        count if count == digits.len() => count - 1,
+        count => count,
+    };
     let sci_exp: i32 = initial_cursor as i32 - integer_cursor as i32 - zero_count as i32 - 1;
     write_float!(
         float,
